@@ -26,6 +26,7 @@ func c02(c *Ctx) {
 	c02R2(c, "R2")
 	c02R3(c, "R3")
 	c02R4(c, "R4")
+	sMatch(c, "R4/S-MATCH")
 	c04R1(c, "R5/C04.R1")
 	sInstallDurable(c, "R6/S-DURABLE")
 	c02R7(c, "R7")
